@@ -41,6 +41,10 @@ pub enum Cmd {
     /// table, op (`lt` `eq` `ge` `all`), constant
     Delete(String, String, i32),
     Select(String),
+    /// `select v from t where v = k` (a key predicate on a keyed table)
+    SelEq(String, i32),
+    /// `select v from t order by v`: the result is compared IN ORDER
+    SelOrd(String),
     Count(String),
     /// storage-level reader: table, batch size
     Read(String, usize),
@@ -59,6 +63,8 @@ impl Cmd {
             ),
             Cmd::Delete(t, op, k) => format!("del:{t}:{op}:{k}"),
             Cmd::Select(t) => format!("sel:{t}"),
+            Cmd::SelEq(t, k) => format!("seleq:{t}:{k}"),
+            Cmd::SelOrd(t) => format!("selo:{t}"),
             Cmd::Count(t) => format!("cnt:{t}"),
             Cmd::Read(t, b) => format!("read:{t}:{b}"),
             Cmd::Compact => "compact".into(),
@@ -76,6 +82,8 @@ impl Cmd {
             ),
             "del" => Cmd::Delete(p[1].into(), p[2].into(), p[3].parse().unwrap()),
             "sel" => Cmd::Select(p[1].into()),
+            "seleq" => Cmd::SelEq(p[1].into(), p[2].parse().unwrap()),
+            "selo" => Cmd::SelOrd(p[1].into()),
             "cnt" => Cmd::Count(p[1].into()),
             "read" => Cmd::Read(p[1].into(), p[2].parse().unwrap()),
             "compact" => Cmd::Compact,
@@ -85,7 +93,15 @@ impl Cmd {
     }
     pub fn sql(&self) -> Option<String> {
         Some(match self {
-            Cmd::Create(t) => format!("create table {t} (v int)"),
+            // by convention tables named t50.. have `v` as PRIMARY KEY (sorted row-sets, merging
+            // scans and compactions, key predicates pushed into the scan)
+            Cmd::Create(t) => {
+                if t[1..].parse::<u32>().map(|n| n >= 50).unwrap_or(false) {
+                    format!("create table {t} (v int primary key)")
+                } else {
+                    format!("create table {t} (v int)")
+                }
+            }
             Cmd::Drop(t) => format!("drop table {t}"),
             Cmd::Insert(t, vs) => format!(
                 "insert into {t} values {}",
@@ -95,9 +111,12 @@ impl Cmd {
                 "lt" => format!("delete from {t} where v < {k}"),
                 "eq" => format!("delete from {t} where v = {k}"),
                 "ge" => format!("delete from {t} where v >= {k}"),
+                "bt" => format!("delete from {t} where v >= {k} and v <= {}", k + 2),
                 _ => format!("delete from {t}"),
             },
             Cmd::Select(t) => format!("select v from {t}"),
+            Cmd::SelEq(t, k) => format!("select v from {t} where v = {k}"),
+            Cmd::SelOrd(t) => format!("select v from {t} order by v"),
             Cmd::Count(t) => format!("select count(*) from {t}"),
             _ => return None,
         })
@@ -511,6 +530,11 @@ fn err_class(e: &str) -> String {
 
 /// Runs one SQL statement, returns the canonical result text.
 pub async fn run_sql_text(db: &Database, sql: &str) -> String {
+    run_sql_text_ord(db, sql, false).await
+}
+
+/// `keep_order`: the rows are reported in the order the statement returned them
+pub async fn run_sql_text_ord(db: &Database, sql: &str, keep_order: bool) -> String {
     match db.run(sql).await {
         Ok(chunks) => {
             let mut vals = vec![];
@@ -521,7 +545,7 @@ pub async fn run_sql_text(db: &Database, sql: &str) -> String {
                     }
                 }
             }
-            rows_text(vals, true)
+            rows_text(vals, !keep_order)
         }
         Err(e) => {
             // the Display of the outer error does not include its cause: walk the chain
@@ -621,6 +645,7 @@ async fn run_cmd(db: &Arc<Database>, actor: usize, cmd: &Cmd) -> String {
             Ok(()) => "ok".into(),
             Err(e) => err_class(&e.to_string()),
         },
+        c @ Cmd::SelOrd(_) => run_sql_text_ord(db, &c.sql().unwrap(), true).await,
         c => run_sql_text(db, &c.sql().unwrap()).await,
     }
 }
